@@ -126,6 +126,15 @@ func c10Job(raw json.RawMessage) (any, error) {
 	if len(names) >= 3 {
 		vals = vals[:4]
 	}
+	// a value that is itself the token text of a parameter of this pattern: substitution replaces tokens of the
+	// pattern, never text that came in as a value
+	if perr == nil && len(names) >= 2 {
+		for i := range pp.Tokens {
+			if t := &pp.Tokens[i]; t.Kind != ref.Lit {
+				vals = append(vals, t.Text)
+			}
+		}
+	}
 
 	// routers for the strict mode: pattern live / not live / only a structural prefix / removed again
 	type rt struct {
